@@ -38,6 +38,9 @@ def run(model: Model, rep: Report, tier: str) -> None:
     from .common import graph_rewrite, rewriter
 
     load_reference(model, "yvref.c20", "c20_ref.py")
+    # the paths are enumerated on graph.disorient(): it must be the flat graph over ALL nodes (an isolated end node is a node)
+    from . import c14 as _c14
+    _c14.flat_graph_rows(model, rep, "R20.2", which=("disorient",))
     sa = SetAlg(rewriter(graph_rewrite))
     V = ("cls", VARIABLE)
     G = ("cls", NXMG)
